@@ -7,9 +7,10 @@ Main theorem `C15_full` (= `decides`): whenever the documentation makes a promis
 validator on an element view (`documented v e = some d`), the validator returns exactly the
 verdict `d` without raising and notes a message iff the verdict is false — for every class, with
 no side condition (the former exceptions D-C15-5/6/7 are fixed in /repo: e508833, 5e93603,
-7308ea3, and the model follows the repaired code).  The network validators
-(`IsEmail`, `URL*`) are outside `documented` (urlparse/idna are opaque): this part of C15 rests
-on correspondence only.
+7308ea3, and the model follows the repaired code).  `IsEmail` is decided relative to the opaque
+idna conversion (`isEmail_length_on_idna`: every length assertion is on the converted domain).
+The URL validators are outside `documented` (urlparse is opaque): that part of C15 rests on
+correspondence only.
 -/
 import Flatland.C15
 import Flatland.Spec.C15
@@ -18,6 +19,7 @@ import Proofs.Lemmas.C15Order
 import Proofs.Lemmas.C15Sets
 import Proofs.C16
 import Proofs.Lemmas.C15Messages
+import Proofs.Lemmas.C15Email
 namespace Flatland.C15.Proofs
 open Flatland.C16 Flatland.C15 Flatland.C15.Spec
 
@@ -647,6 +649,73 @@ theorem decides_luhn10 (e : View) (d) (hd : documented .luhn10 e = some d) :
     | true => exact decides_pass _ _ (by simp [verdict, hv, numOf, h])
     | false => exact decides_fail _ _ "invalid" [] (by simp [verdict, hv, numOf, h])
 
+/-! ### network.py: IsEmail (idna conversion opaque, order of checks specified) -/
+
+theorem decides_isEmail (nl : Bool) (e : View) (d)
+    (hd : documented (.isEmail nl) e = some d) : Decides (.isEmail nl) e d := by
+  simp only [documented] at hd
+  cases hv : e.value with
+  | none =>
+    rw [hv] at hd; cases hd
+    exact decides_fail _ _ "invalid" [] (by simp [verdict, hv])
+  | str addr =>
+    rw [hv] at hd
+    simp only [Option.some.injEq] at hd
+    subst hd
+    have := verdict_isEmail_str nl e addr hv
+    cases hdoc : emailDocumented nl addr e.localOk e.idna with
+    | true => rw [hdoc] at this; exact decides_pass _ _ (by simpa using this)
+    | false => rw [hdoc] at this; exact decides_fail _ _ "invalid" [] (by simpa using this)
+  | int i => rw [hv] at hd; cases hd
+  | bool b => rw [hv] at hd; cases hd
+  | elem u => rw [hv] at hd; cases hd
+
+/-- **isEmail_length_on_idna**: the length assertions are applied to the *converted* domain.
+    Whatever the address looks like as text (in particular however short its domain is before
+    conversion), if the IDN form is longer than 253 characters — or one of its dot-separated
+    components longer than 63 — the verdict is false with the `invalid` message. -/
+theorem isEmail_length_on_idna (nl : Bool) (e : View) (addr d : Str)
+    (hv : e.value = .str addr) (hi : e.idna = some d)
+    (hlong : 253 < d.length ∨ ∃ l ∈ splitOnChar '.' d, 63 < l.length) :
+    verdict (.isEmail nl) e = fail "invalid" := by
+  rw [verdict_isEmail_str nl e addr hv]
+  have : emailDocumented nl addr e.localOk e.idna = false := by
+    unfold emailDocumented
+    rw [hi]
+    rcases hlong with h | ⟨l, hl, h⟩
+    · have : ¬ d.length ≤ 253 := by omega
+      simp [this]
+    · have : (splitOnChar '.' d).all (fun l => decide (l.length ≤ 63)) = false := by
+        rw [List.all_eq_false]
+        exact ⟨l, hl, by simp; omega⟩
+      simp [this]
+  simp [this]
+
+/-- conversely an accepted address has a converted domain of at most 253 characters whose
+    components have at most 63 -/
+theorem isEmail_accepts_short_idna (nl : Bool) (e : View) (addr : Str)
+    (hv : e.value = .str addr) (hp : verdict (.isEmail nl) e = pass) :
+    ∃ d, e.idna = some d ∧ d.length ≤ 253 ∧ ∀ l ∈ splitOnChar '.' d, l.length ≤ 63 := by
+  rw [verdict_isEmail_str nl e addr hv] at hp
+  cases hdoc : emailDocumented nl addr e.localOk e.idna with
+  | false => rw [hdoc] at hp; simp [pass, fail] at hp
+  | true =>
+    unfold emailDocumented at hdoc
+    cases hi : e.idna with
+    | none => rw [hi] at hdoc; simp at hdoc
+    | some d =>
+      rw [hi] at hdoc
+      simp only [Bool.and_eq_true, decide_eq_true_eq, List.all_eq_true] at hdoc
+      exact ⟨d, rfl, hdoc.2.1.1.1, fun l hl => hdoc.2.2 l hl⟩
+
+/-- non-vacuity: a 8-character text domain whose (supposed) conversion has 254 characters -/
+example :
+    verdict (.isEmail true)
+      { value := .str "bob@snow.com".toList, idna := some (List.replicate 254 'a') } =
+      fail "invalid" :=
+  isEmail_length_on_idna true _ "bob@snow.com".toList (List.replicate 254 'a') rfl rfl
+    (Or.inl (by rw [List.length_replicate]; omega))
+
 /-! ### the property theorem -/
 
 /-- **decides** — for every validator class, every parameterisation and every element view:
@@ -675,7 +744,7 @@ theorem decides (v : V) (e : View) (d : Bool) (hd : documented v e = some d) : D
   | setWithKnownFields => exact decides_setWithKnownFields e d hd
   | setWithAllFields => exact decides_setWithAllFields e d hd
   | luhn10 => exact decides_luhn10 e d hd
-  | isEmail _ => simp [documented] at hd
+  | isEmail nl => exact decides_isEmail nl e d hd
   | urlValidator _ _ => simp [documented] at hd
   | httpURL _ _ => simp [documented] at hd
   | urlCanonicalizer _ => simp [documented] at hd
